@@ -159,6 +159,14 @@ def run():
             roles.add("root-in-nested-branch")
         if R.separator_class(ast):
             roles.add("separator-class")
+        # the postfix is recompiled on its own: a branch that was in the middle of the glob may be
+        # first in the postfix, which changes the (position, superposition) signature of tree
+        # wildcards at its edges
+        if post and ast is not None:
+            import gen as _gen
+            past = _gen.parse(post["display"])
+            if past is not None and R.superposition_explains([ast], [past]):
+                roles.add("tree-at-branch-edge")
         rep.candidate(roles, {"short": {"program": r["text"], "prefix": r["row"]["part"]["prefix"],
                                         "postfix": post["display"] if post else None, "path": w,
                                         "glob_matches": m, "prefix_and_postfix_match": right}})
